@@ -67,6 +67,7 @@ Section RejectedCustom.
       unfold bind; destruct (res (cleanup LF crun true s)) as [[[m'|m' st'|m' st'|]|]|e];
       cbn [get_ts throw ret res post w]; try discriminate;
       try (destruct (internal_msg m); cbn [mark_dirty throw ret res post w]; discriminate);
+      try match goal with |- context [ood ?t] => destruct (ood t); [|cbn [ret res]; discriminate] end;
       (destruct (failed (ts (post (cleanup LF crun true s)))) eqn:E; cbn [throw ret res post w]; [discriminate|];
        intros _; repeat split; cbn [nf wapp wnil w]; rewrite ?orb_false_r; reflexivity).
   Qed.
